@@ -145,11 +145,24 @@ Proof. exact old_routes_ignored_manifest. Qed.
 Theorem dotted_import_uses_the_same_policy :
   forall (vreq ver : Type) (sat : vreq -> ver -> bool) (r : route) (c : config) (m : manifest vreq)
          (dirs : list string) (name : string) (f : nfile ver),
+    sassoc (String.concat "." (dirs ++ [name])) m = None ->
     route_decision vreq ver sat r c (Some m) None (dirs ++ [name]) f
     = route_decision vreq ver sat r c (Some m) None [name] f.
 Proof.
-  intros. unfold route_decision, module_policy. rewrite last_last. reflexivity.
+  intros vreq ver sat r c m dirs name f Hno.
+  assert (E : module_policy vreq m (dirs ++ [name]) = module_policy vreq m [name]).
+  { unfold module_policy. rewrite last_last. destruct policy_lookup_tries_dotted_path; [|reflexivity].
+    rewrite Hno. cbn [String.concat last]. destruct (sassoc name m); reflexivity. }
+  unfold route_decision. destruct r; cbn [manifest_for]; rewrite E; reflexivity.
 Qed.
+
+(* the capabilities the VM itself knows need their capability bit for native modules as well
+   (holds on a tree that has the round-4 repair: the premise is read from the source) *)
+Theorem std_capability_bits_deny_native_modules :
+  native_caps_consult_std_bits = true ->
+  forall (c : config) (cap bit : string), sassoc cap cap_bits = Some bit -> cap_bit c bit = false ->
+    check_native_capability c cap = false.
+Proof. intros F c cap bit. apply std_bits_deny_native_lemma; exact F. Qed.
 
 (* the two FNV-1a implementations (file in chunks / byte slice) agree on every byte sequence *)
 Theorem fnv_file_eq_fnv_bytes : forall chunks : list (list N), fnv_file chunks = fnv_bytes (List.concat chunks).
